@@ -78,12 +78,8 @@ Definition last2 (l : gsd) : option ((T * T) * (T * T)) :=
   | _ => None
   end.
 
-Definition create_fracs (g : gsd) (Dp nu rhol rhos : T) (num_fracs : Z) : gsd :=
-  match sort_keys g with
-  | (flow, dlow) :: (fnext, dnext) :: rest =>
-    let points_left := (Z.of_nat (length g) - 1)%Z in
-    let dmin := Framework.pseudo_dlim N Dp nu rhol rhos in
-    let '(flow, dlow, fnext, dnext, rest, points_left) := skip dmin flow dlow fnext dnext rest points_left in
+(* everything after the first loop: locate the start (X, dmin), subdivide, extrapolate the top point *)
+Definition create_fracs_tail (dmin flow dlow fnext dnext : T) (rest : gsd) (points_left num_fracs : Z) : gsd :=
     let X := nsub N fnext (ndiv N (nmul N (nsub N (nlog10 N dnext) (nlog10 N dmin)) (nsub N fnext flow))
                                   (nsub N (nlog10 N dnext) (nlog10 N dlow))) in
     let '(new, dmin, X) :=
@@ -102,7 +98,15 @@ Definition create_fracs (g : gsd) (Dp nu rhol rhos : T) (num_fracs : Z) : gsd :=
       let logdthis := log10_interp dlow dnext flow fnext fthis in
       sort_keys (dict_set new fthis (pow10 logdthis))
     | None => []
-    end
+    end.
+
+Definition create_fracs (g : gsd) (Dp nu rhol rhos : T) (num_fracs : Z) : gsd :=
+  match sort_keys g with
+  | (flow, dlow) :: (fnext, dnext) :: rest =>
+    let points_left := (Z.of_nat (length g) - 1)%Z in
+    let dmin := Framework.pseudo_dlim N Dp nu rhol rhos in
+    let '(flow, dlow, fnext, dnext, rest, points_left) := skip dmin flow dlow fnext dnext rest points_left in
+    create_fracs_tail dmin flow dlow fnext dnext rest points_left num_fracs
   | _ => []
   end.
 
